@@ -23,6 +23,12 @@ def correct(value, ty):
     return value - base if signed and value.bit_length() == bits else value
 
 
+def remainder(a, b):
+    """Remainder of division truncating towards zero (sign of a)"""
+    value = abs(a) % abs(b)
+    return -value if a < 0 else value
+
+
 def enhance(f):
     """Create a new enhanced method that corrects for the given type"""
     return lambda ty, a, b: correct(f(a, b), ty)
@@ -37,7 +43,7 @@ class ConstantFolder(BlockPass):
             "+": enhance(operator.add),
             "-": enhance(operator.sub),
             "*": enhance(operator.mul),
-            "%": enhance(operator.mod),
+            "%": enhance(remainder),
             "<<": enhance(operator.lshift),
             ">>": enhance(operator.rshift),
         }
